@@ -547,6 +547,52 @@ def aliasing_and_batch_oracle(ctx, xt):
                 if got.shape != want.shape or not torch.allclose(got, want, rtol=1e-12, atol=1e-12):
                     ctx.fail("oracle", "linop:aliasing:%s" % what, info, got, want)
                     break
+    # (1b) a wrapped dense matrix whose tensor is temporarily replaced (with op.uselinopparams(new)): inside the block ALL products
+    #      describe the new matrix, afterwards all describe the old one again (round-4 seed C11/10: the conjugate transpose cached at
+    #      construction);  (1c) the products of an operator that defines _mv only also work while autograd is switched off (round-4
+    #      seed C11/12: the autograd-based adjoint lost its enable_grad)
+    for dtype in DTs:
+        n = 3
+        M_old = torch.randn(n, n, dtype=dtype, generator=g)
+        M_new = torch.randn(n, n, dtype=dtype, generator=g)
+        op = xt.LinearOperator.m(M_old, is_hermitian=False)
+        x = torch.randn(n, dtype=dtype, generator=g)
+        X = torch.randn(n, 2, dtype=dtype, generator=g)
+
+        def all_products(o):
+            return {"mv": o.mv(x), "mm": o.mm(X), "rmv": o.rmv(x), "rmm": o.rmm(X), "fullmatrix": o.fullmatrix(), "H.mv": o.H.mv(x)}
+
+        def expected(Mx):
+            MH = Mx.transpose(-2, -1).conj()
+            return {"mv": Mx @ x, "mm": Mx @ X, "rmv": MH @ x, "rmm": MH @ X, "fullmatrix": Mx, "H.mv": MH @ x}
+        stages = []
+        try:
+            stages.append(("before", all_products(op), expected(M_old)))
+            with op.uselinopparams(M_new):
+                stages.append(("inside uselinopparams(new)", all_products(op), expected(M_new)))
+            stages.append(("after", all_products(op), expected(M_old)))
+        except Exception as e:
+            ctx.fail("oracle", "linop:substituted-matrix:exception", {"dtype": str(dtype)}, repr(e)[:200], "products")
+            continue
+        ctx.count(("substituted-matrix", str(dtype)))
+        for stage, got, want in stages:
+            bad = [k for k in want if got[k].shape != want[k].shape or not torch.allclose(got[k], want[k], rtol=1e-12, atol=1e-12)]
+            if bad:
+                ctx.fail("oracle", "linop:substituted-matrix:%s" % bad[0], {"dtype": str(dtype), "stage": stage}, got[bad[0]], want[bad[0]])
+                break
+        mvonly = leaf_class(xt, (False, False, False, False))(M_old, 7, False)
+        try:
+            with torch.no_grad():
+                got = {"rmv": mvonly.rmv(x), "rmm": mvonly.rmm(X), "H.mv": mvonly.H.mv(x), "(2*A).rmv": (2 * mvonly).rmv(x), "fullmatrix": mvonly.fullmatrix()}
+            MH = M_old.transpose(-2, -1).conj()
+            want = {"rmv": MH @ x, "rmm": MH @ X, "H.mv": MH @ x, "(2*A).rmv": 2 * MH @ x, "fullmatrix": M_old}
+            ctx.count(("no-grad-products", str(dtype)))
+            bad = [k for k in want if got[k].shape != want[k].shape or not torch.allclose(got[k], want[k], rtol=1e-12, atol=1e-12)]
+            if bad:
+                ctx.fail("oracle", "linop:no-grad:%s" % bad[0], {"dtype": str(dtype), "operator": "_mv only"}, got[bad[0]], want[bad[0]])
+        except Exception as e:
+            ctx.fail("oracle", "linop:no-grad:exception", {"dtype": str(dtype), "operator": "_mv only", "context": "torch.no_grad()"}, repr(e)[:200],
+                     "the conjugate-transpose products")
     # (2) different batch shapes of the operands
     for dtype in DTs:
         n = 3
